@@ -154,3 +154,137 @@ Example C12_ex_commit :
   let cs := [ChInsert 0 1 (Some 3); ChDelete 1 1 (Some 2); ChInsert 2 0 None; ChModify 3 2 [(ODel, 2); (OIns, 1)]] in
   forallb ch_ok cs = true /\ keys_distinct [] cs = true /\ sum_ins (lsc_consume false cs) = 4 /\ sum_del (lsc_consume false cs) = 4.
 Proof. vm_compute. repeat split. Qed.
+
+(* ==== composition ==== *)
+(* What C12 assumes of the planner / run loop ([replay_ok]) and of the diff scripts ([no_del_del] / [canonical])
+   derived inside Coq from C02, C14 and C11 (coq/theories/Compose/RunReplay.v, ScriptShape.v; the plan translation
+   [back_plan] and the validator [c04_ok] are explained at the end of coq/props/C14.v). *)
+From Herc Require Compose.PlanRun Compose.RunReplay Compose.ScriptShape.
+From Herc Require Pipeline.RunModel Plan.Syntax Plan.Lifecycle Plumbing.Script Plumbing.ScriptProofs.
+Close Scope N_scope.
+
+(* [replay_ok] holds of the replay sequence of every COMPLETED run of C14's model of Pipeline.Run on a plan that
+   the validator of C02/C04 accepts for the commit graph g: [l] has one step per executed commit step, with that
+   step's commit and the IsMerge flag the run handed to the items, and NumParents() at least the number of parent
+   entries the commit has in g (g = the history restricted to the analysed commits).  Used: C02's specification
+   (one replay per non-redundant parent, hence at most one per parent) and C14_is_merge (the flag is set iff the
+   commit is replayed on two or more branches).  A run that is aborted has executed only a prefix of the replays
+   while the flags are computed from the whole plan, so the statement is about runs that return a result. *)
+Theorem C12_replay_ok_composed : forall (St U : Type) (sm : Pipeline.RunModel.sem St U)
+    (items : list Pipeline.RunModel.item) (g : list (list nat)) (q : list Pipeline.RunModel.action) (nc : N),
+  Plan.Lifecycle.c04_ok g (Compose.PlanRun.back_plan q) = true ->
+  Compose.PlanRun.head_carriesb q = true ->
+  forall (fins : list (Pipeline.RunModel.fincall U)) (sm' : Pipeline.RunModel.summary),
+  Pipeline.RunModel.ro_out (Pipeline.RunModel.run St U sm items q nc) = Pipeline.RunModel.Done fins sm' ->
+  forall l : list step,
+  Forall2 (fun (s : step) (cs : Pipeline.RunModel.cstep U) =>
+             s_commit s = Pipeline.RunModel.c_id (Pipeline.RunModel.cs_commit cs) /\
+             s_ismerge s = Pipeline.RunModel.cs_merge cs /\
+             (length (Plan.Syntax.parents g (N.to_nat (s_commit s))) <= N.to_nat (s_nparents s))%nat)
+          l (Pipeline.RunModel.csteps (Pipeline.RunModel.ro_recs (Pipeline.RunModel.run St U sm items q nc))) ->
+  replay_ok l = true.
+Proof. exact Compose.RunReplay.replay_ok_composed. Qed.
+Print Assumptions C12_replay_ok_composed.
+
+(* C12_once with that hypothesis discharged *)
+Theorem C12_once_composed : forall (St U : Type) (sm : Pipeline.RunModel.sem St U)
+    (items : list Pipeline.RunModel.item) (g : list (list nat)) (q : list Pipeline.RunModel.action) (nc : N),
+  Plan.Lifecycle.c04_ok g (Compose.PlanRun.back_plan q) = true ->
+  Compose.PlanRun.head_carriesb q = true ->
+  forall (fins : list (Pipeline.RunModel.fincall U)) (sm' : Pipeline.RunModel.summary),
+  Pipeline.RunModel.ro_out (Pipeline.RunModel.run St U sm items q nc) = Pipeline.RunModel.Done fins sm' ->
+  forall l : list step,
+  Forall2 (fun (s : step) (cs : Pipeline.RunModel.cstep U) =>
+             s_commit s = Pipeline.RunModel.c_id (Pipeline.RunModel.cs_commit cs) /\
+             s_ismerge s = Pipeline.RunModel.cs_merge cs /\
+             (length (Plan.Syntax.parents g (N.to_nat (s_commit s))) <= N.to_nat (s_nparents s))%nat)
+          l (Pipeline.RunModel.csteps (Pipeline.RunModel.ro_recs (Pipeline.RunModel.run St U sm items q nc))) ->
+  forall cec : bool,
+  NoDup (map s_commit (attributed cec l)) /\
+  (forall c, In c (map s_commit l) ->
+     (cec = true \/ forall s, In s l -> s_commit s = c -> s_changes s <> []) ->
+     In c (map s_commit (attributed cec l))) /\
+  (forall s, In s (attributed cec l) -> In s l /\ (cec = true \/ s_changes s <> [])).
+Proof. exact Compose.RunReplay.devs_once_composed. Qed.
+Print Assumptions C12_once_composed.
+
+(* ---- diff scripts: C11's shape against C12's ------------------------------------------------------
+   [tr_script] reads a script of C11 (Plumbing/Script.v: runs with nat counts) as a script of C12.
+   C12's [canonical] implies C11's, C11's implies [no_del_del] (all that C12_linestats needs); C11's does NOT
+   imply C12's: C11 allows two neighbouring equal runs. *)
+Theorem C12_shapes_composed :
+  (forall ds, canonical (Compose.ScriptShape.tr_script ds) = true -> Plumbing.Script.canonical ds = true) /\
+  (forall ds, Plumbing.Script.canonical ds = true -> no_del_del (Compose.ScriptShape.tr_script ds) = true) /\
+  (exists ds, Plumbing.Script.canonical ds = true /\ canonical (Compose.ScriptShape.tr_script ds) = false).
+Proof.
+  exact (conj Compose.ScriptShape.c12_canonical_c11
+        (conj Compose.ScriptShape.c11_canonical_no_del_del
+              (ex_intro _ [(Plumbing.Script.Equal, 1%nat); (Plumbing.Script.Equal, 1%nat)] (conj eq_refl eq_refl)))).
+Qed.
+Print Assumptions C12_shapes_composed.
+
+(* the model of the Modify loop written for C11 and the one written for C12 compute the same statistics on
+   EVERY script *)
+Theorem C12_linestats_models_agree : forall ds : list (Plumbing.Script.op * nat),
+  line_stats (Compose.ScriptShape.tr_script ds) =
+  mkStats (N.of_nat (Plumbing.Script.ls_added (Plumbing.Script.line_stats ds)))
+          (N.of_nat (Plumbing.Script.ls_removed (Plumbing.Script.line_stats ds)))
+          (N.of_nat (Plumbing.Script.ls_changed (Plumbing.Script.line_stats ds))).
+Proof. exact Compose.ScriptShape.models_agree. Qed.
+Print Assumptions C12_linestats_models_agree.
+
+(* C12_linestats on every script that C11's validator accepts for the line lists [old] / [new] (what ./check C11
+   evaluates on every output of FileDiff): the hypothesis [no_del_del] is discharged, and the growth is the
+   difference of the two line counts *)
+Theorem C12_linestats_composed : forall (old new : list (list Z)) (ds : list (Plumbing.Script.op * nat)),
+  Plumbing.Script.lines_script_ok old new ds = true ->
+  let st := line_stats (Compose.ScriptShape.tr_script ds) in
+  no_del_del (Compose.ScriptShape.tr_script ds) = true /\
+  (added st + changed st = inserted (Compose.ScriptShape.tr_script ds))%N /\
+  (removed st + changed st = deleted (Compose.ScriptShape.tr_script ds))%N /\
+  (Z.of_N (added st) - Z.of_N (removed st) = Z.of_nat (length new) - Z.of_nat (length old))%Z.
+Proof.
+  exact (fun old new ds =>
+           Compose.ScriptShape.linestats_composed Plumbing.LineCount.list_eqb old new ds
+             Plumbing.ScriptProofs.list_eqb_spec).
+Qed.
+Print Assumptions C12_linestats_composed.
+
+Example C12_ex_composed_script :
+  let ds := [(Plumbing.Script.Equal, 2%nat); (Plumbing.Script.Delete, 1%nat); (Plumbing.Script.Insert, 2%nat)] in
+  Plumbing.Script.lines_script_ok [[1%Z]; [2%Z]; [3%Z]] [[1%Z]; [2%Z]; [4%Z]; [5%Z]] ds = true /\
+  line_stats (Compose.ScriptShape.tr_script ds) = mkStats 1 0 1.
+Proof. vm_compute. split; reflexivity. Qed.
+
+(* non-vacuity of C12_replay_ok_composed: the plan of coq/props/C14.v (two roots 0 and 1 merged by commit 2, replayed on
+   both branches with a boot action in between) run with C14's recording items; the hypotheses hold and the replay
+   sequence read off the run has the merge commit twice with the flag *)
+Definition cx_plan : list Pipeline.RunModel.action :=
+  let c0 := Pipeline.RunModel.mkC 0 1500001000 in
+  let c1 := Pipeline.RunModel.mkC 1 1500000010 in
+  let c2 := Pipeline.RunModel.mkC 2 1500000020 in
+  [Pipeline.RunModel.AOther Pipeline.RunModel.KEmerge (Some c0) [1%N]; Pipeline.RunModel.ACommit c0 [1%N];
+   Pipeline.RunModel.AOther Pipeline.RunModel.KHibernate (Some c0) [1%N];
+   Pipeline.RunModel.AOther Pipeline.RunModel.KEmerge (Some c1) [2%N]; Pipeline.RunModel.ACommit c1 [2%N];
+   Pipeline.RunModel.ACommit c2 [2%N]; Pipeline.RunModel.AOther Pipeline.RunModel.KBoot (Some c2) [1%N];
+   Pipeline.RunModel.ACommit c2 [1%N]; Pipeline.RunModel.AOther Pipeline.RunModel.KMerge None [2%N; 1%N]].
+Definition cx_items : list Pipeline.RunModel.item :=
+  [Pipeline.RunModel.mkItem 0 [3%N] [] false false false; Pipeline.RunModel.mkItem 1 [4%N] [3%N] true true true].
+Definition cx_graph : list (list nat) := [[]; []; [0; 1]]%nat.
+Definition cx_steps : list step :=
+  map (fun cs => mkStep (Pipeline.RunModel.c_id (Pipeline.RunModel.cs_commit cs))
+                        (N.of_nat (length (Plan.Syntax.parents cx_graph
+                                      (N.to_nat (Pipeline.RunModel.c_id (Pipeline.RunModel.cs_commit cs))))))
+                        (Pipeline.RunModel.cs_merge cs) 0 0 [])
+      (Pipeline.RunModel.csteps (Pipeline.RunModel.ro_recs
+         (Pipeline.RunModel.rec_run cx_items Pipeline.RunModel.INone cx_plan 3))).
+
+Example C12_ex_composed_replay :
+  Plan.Lifecycle.c04_ok cx_graph (Compose.PlanRun.back_plan cx_plan) = true /\
+  Compose.PlanRun.head_carriesb cx_plan = true /\
+  (exists fins sm', Pipeline.RunModel.ro_out (Pipeline.RunModel.rec_run cx_items Pipeline.RunModel.INone cx_plan 3)
+                    = Pipeline.RunModel.Done fins sm') /\
+  map (fun s => (s_commit s, s_nparents s, s_ismerge s)) cx_steps =
+    [(0, 0, false); (1, 0, false); (2, 2, true); (2, 2, true)]%N /\
+  replay_ok cx_steps = true.
+Proof. vm_compute. repeat split. eexists. eexists. reflexivity. Qed.
